@@ -338,8 +338,8 @@ class C07Runner:
 			e = r['error']
 			site = f"{e['cls']}@{e['site']}"
 			chain = e.get('chain', [])
-			from_damaged_cache = any(c.endswith('JSONDecodeError') or c.endswith('UnpicklingError') for c in chain)
-			if not e['is_tranp_error'] and not from_damaged_cache:
+			# (this check injects no cache damage: a cache file that cannot be decoded here was left behind by tranp itself)
+			if not e['is_tranp_error']:
 				self.violation('non-tranp-exception-from-disk-module', k, {'error': {kk: e[kk] for kk in ('cls', 'site', 'msg')}, 'text': st['text'][:300], 'attempt': attempt}, site_sig=site)
 			else:
 				self.bump('disk_errors', e['cls'].split('.')[-1])
@@ -395,7 +395,7 @@ class C07(Engine):
 	thorough_budget_s = 1500.0
 	components_real = ['Interactive.run/rebuild_module', 'bin/io.tty', 'Modules/ModuleLoader', 'SyntaxParserOfLark (disk and in-memory branches)', 'all preprocessors', 'Reflections', 'Py2Cpp/Procedure', 'ErrorRender', 'Runner']
 	components_stubbed = Engine.components_stubbed + ['rogw.tranp.bin.io.readline replaced by the simulated terminal (the real one spawns bash per line)']
-	assumptions = ['exceptions caused by damaged *cache* files (JSONDecodeError, UnpicklingError) are not input texts and are not judged here (C05)', 'at stdin EOF the real loop spins; the simulated terminal always ends with `exit`']
+	assumptions = ['at stdin EOF the real loop spins; the simulated terminal always ends with `exit`']
 
 	def canonical_cases(self) -> list[dict[str, Any]]:
 		pool = pools.fixed_pool(0)
